@@ -35,6 +35,14 @@ class _Table:
         raise HarnessError(f"call-back {self.name} called on {key}, not in the model's table")
 
 
+class _UnhashableTable(_Table):
+    """a call-back object with value equality and no hash (legal: any callable may be a filter)"""
+    __hash__ = None
+
+    def __eq__(self, other):
+        return self is other
+
+
 class NativeBackend(BackendBase):
     sym = False
 
@@ -169,8 +177,8 @@ class NativeBackend(BackendBase):
     def mkdict(self, pairs):
         return {k: v for k, v in pairs}
 
-    def uf(self, name, domains, ret="bool", fault=False, fault_cls="HarnessFault"):
-        t = _Table(self, name, self._hole(name), ret)
+    def uf(self, name, domains, ret="bool", fault=False, fault_cls="HarnessFault", unhashable=False):
+        t = (_UnhashableTable if unhashable else _Table)(self, name, self._hole(name), ret)
         t.fault_cls = fault_cls
         self.keep.append(t)
         self.labels[id(t)] = name
